@@ -1,14 +1,34 @@
+// c12: trace views agree with the ingested spans.
+//
+// Streams (every stream has its own PRNG fork of the seed):
+//
+//	tree    BuildSpanTree driven directly on generated span maps (well formed, missing parents,
+//	        several roots, cycles, self parents, missing idToParentId entries, up to thousands of spans)
+//	qs      quickSelect / pickPivot (verif hook) and FindPercentileData on generated uint64 slices
+//	event   spanToJson (verif hook) on generated OTLP spans
+//	e2e     span forests ingested through otlp.ProcessTraceIngest into a fresh store (one worker
+//	        process per scenario), then ProcessSearchTracesRequest (all pages), ProcessGanttChartRequest
+//	        (per trace), ProcessGeneratedDepGraph and ProcessRedTracesIngest (+ query of red-traces)
+//
+//	(a) property oracle: the property text evaluated on the handlers' answers with an independent
+//	    specification written in Go (spec in e2e.go / direct.go); specific failure classes;
+//	    known-defect inputs come from their own streams (deppage, multiroot, crossjoin, huge);
+//	(b) Coq case files: the model (Trace.v) must reproduce every observed answer (trees node by
+//	    node incl. relative times and anomaly flags, summaries, matrices, RED numbers, pivots).
 package main
 
 import (
-	"encoding/json"
+	"context"
 	"fmt"
 	"os"
 	"os/exec"
-	"context"
 	"time"
+
 	"github.com/siglens/siglens/pkg/ast/pipesearch"
+	log "github.com/sirupsen/logrus"
 	"github.com/valyala/fasthttp"
+
+	"verifharness/vhlib"
 )
 
 func pipesearchProcess(ctx *fasthttp.RequestCtx) { pipesearch.ProcessPipeSearchRequest(ctx, 0) }
@@ -18,48 +38,32 @@ func main() {
 		workerMain(os.Args[2], os.Args[3], os.Args[4])
 		return
 	}
-	if len(os.Args) >= 5 && os.Args[1] == "pageprobe" {
-		pageProbe(os.Args[2], os.Args[3], os.Args[4])
-		return
-	}
-	if len(os.Args) >= 3 && os.Args[1] == "probe" {
+	if len(os.Args) >= 3 && os.Args[1] == "probe" { // development aid: run one scenario file
 		dir, _ := os.MkdirTemp("/tmp", "C12_probe")
 		defer os.RemoveAll(dir)
-		ctx, cancel := context.WithTimeout(context.Background(), 120*time.Second)
+		ctx, cancel := context.WithTimeout(context.Background(), 300*time.Second)
 		defer cancel()
 		cmd := exec.CommandContext(ctx, os.Args[0], "worker", dir+"/data", os.Args[2], os.Args[2]+".out")
 		out, err := cmd.CombinedOutput()
 		fmt.Println(string(out), err)
 		return
 	}
-}
-
-func pageProbe(dir, scen, text string) {
-	b, _ := os.ReadFile(scen)
-	var sc Scenario
-	json.Unmarshal(b, &sc)
-	initNode(dir)
-	sc.Pages, sc.Gantt, sc.Dep, sc.Red = 0, nil, false, false
-	runScenarioWorker(&sc)
-	seen := map[string]int{}
-	for from := 0; from < 5000; from += 1000 {
-		body, _ := json.Marshal(map[string]interface{}{"searchText": text, "indexName": "traces", "startEpoch": "1600000000000", "endEpoch": "4000000000000", "queryLanguage": "Splunk QL", "from": from, "size": 1000})
-		ctx := postCtx(body)
-		pipesearchProcess(ctx)
-		var resp struct {
-			Hits struct {
-				Records []map[string]interface{} `json:"records"`
-			} `json:"hits"`
-		}
-		json.Unmarshal(ctx.Response.Body(), &resp)
-		dup := 0
-		for _, r := range resp.Hits.Records {
-			id := r["span_id"].(string)
-			if seen[id] > 0 {
-				dup++
-			}
-			seen[id]++
-		}
-		fmt.Println("from", from, "records", len(resp.Hits.Records), "dups", dup, "distinct so far", len(seen))
-	}
+	log.SetLevel(log.PanicLevel)
+	cfg := vhlib.ParseFlags()
+	sum := vhlib.NewSummary("distinct generated inputs (span maps, slices, OTLP spans, span forests) with more than one element")
+	r := vhlib.NewRng(cfg.Seed)
+	rt, rq, re, r2 := r.Fork(), r.Fork(), r.Fork(), r.Fork()
+	t0 := time.Now()
+	streamTree(cfg, rt, sum)
+	streamQS(cfg, rq, sum)
+	streamEvent(cfg, re, sum)
+	t1 := time.Now()
+	streamE2E(cfg, r2, sum)
+	sum.Notes = append(sum.Notes,
+		fmt.Sprintf("direct streams %.1fs, e2e stream %.1fs", t1.Sub(t0).Seconds(), time.Since(t1).Seconds()),
+		"floats (RED, percentiles) are compared with the model's exact rationals with relative tolerance 1e-9",
+		"all generated times are multiples of 1024 ns below 2^63 (exact through the float64 conversion of the search handler)",
+		"span trees of traces with more than 1000 spans are only checked for safety (subset, no duplicates, parents), not for completeness",
+	)
+	sum.Write(cfg.Out)
 }
